@@ -30,7 +30,7 @@ META = {
 
 # family of a generated case -> the MC_Codecs action that produced it
 FAMILY_ACTION = {"a85": "PickA85", "a85ws": "PickA85Ws", "zstored": "PickZ", "lzw": "PickLzw", "lzwlong": "PickLzwLong",
-                 "png": "PickPng", "pngbytes": "PickPngBytes", "chain": "PickChain", "row4": "PickPaeth", "row": "PickRow"}
+                 "png": "PickPng", "nofilter": "PickNoFilter", "pngbytes": "PickPngBytes", "chain": "PickChain", "row4": "PickPaeth", "row": "PickRow"}
 SHORT = {"FlateDecode": "flate", "LZWDecode": "lzw", "ASCII85Decode": "a85"}
 
 
@@ -91,6 +91,37 @@ def judge_chain(c, r):
     return "C09:decode." + input_class(c), det
 
 
+def judge_zero(c, r):
+    """A chain of zero filters (no Filter entry, /Filter null, /Filter []): the content is the decoded data.
+    get_plain_content must return it, decompress must keep it (whatever it answers), and for /Filter []
+    - where decompressed_content has a result at all - that result is the content."""
+    want, ff = c["plain"], c["ff"]
+    dc, gp, dz = r["dc"], r["gp"], r["dz"]
+    det = {"Filter": {"absent": "(no entry)", "null": "null", "empty": "[]"}[ff],
+           "DecodeParms": {"none": "(no entry)", "array": "[]", "dict": "<</Predictor 12 /Columns 2>>"}[c["form"]],
+           "content": want, "decompressed_content": dc, "get_plain_content": gp, "after_decompress": dz}
+    if r["len0"] != r["enc_len"]:
+        return "C09:length.new", det
+    if any("panic" in x for x in (dc, gp, dz)):
+        return "C09:panic.nofilter", det
+    wiped = ff == "empty" and len(want) > 0
+    bad = []
+    if not (gp["ok"] and gp["data"] == want):
+        bad.append("get_plain_content")
+    if ff == "empty" and not (dc["ok"] and dc["data"] == want):
+        bad.append("empty" if wiped and dc["ok"] and dc["data"] == [] else "decompressed_content")
+    if dz["content"] != want:
+        bad.append("empty" if wiped and dz["res"] == "ok" and dz["content"] == [] and dz["length"] == 0 else "decompress")
+    elif dz["length"] != len(dz["content"]):
+        bad.append("length")
+    if not bad:
+        return None, det
+    # the open finding counts only in its exact form: /Filter [] on a non-empty content, result = nothing
+    if all(b == "empty" for b in bad):
+        return "C09:filter.empty-array", det
+    return "C09:nofilter.%s.%s/%s" % ([b for b in bad if b != "empty"][0], ff, c["form"]), det
+
+
 def judge_row(c, r):
     det = {"filter_type": c["ft"], "bpp": c["bpp"], "prev": c["prev"], "cur": c["cur"], "spec_row": c["want"], "lopdf_row": r["row"]}
     if "panic" in r:
@@ -125,7 +156,7 @@ def codec_phase(chk, tier, w):
     for c in cases:
         fams[family(c)] = fams.get(family(c), 0) + 1
     r.coverage = {FAMILY_ACTION[f]: (n, n) for f, n in fams.items()}
-    need = ["PickA85", "PickA85Ws", "PickZ", "PickLzw", "PickLzwLong", "PickPng", "PickPaeth", "PickRow", "PickChain"]
+    need = ["PickA85", "PickA85Ws", "PickZ", "PickLzw", "PickLzwLong", "PickPng", "PickPaeth", "PickRow", "PickChain", "PickNoFilter"]
     if tier != "quick":
         need.append("PickPngBytes")
     vlib.require_coverage(r, need)
@@ -140,14 +171,15 @@ def codec_phase(chk, tier, w):
     for c, r_ in zip(cases, results):
         nontrivial = (c["k"] == "row") or len(c["plain"]) > 0
         chk.case(case_key(c) if nontrivial else None)
-        sig, det = judge_row(c, r_) if c["k"] == "row" else judge_chain(c, r_)
+        sig, det = judge_row(c, r_) if c["k"] == "row" else judge_zero(c, r_) if not c["chain"] else judge_chain(c, r_)
         if sig:
             chk.violation(sig, det)
         else:
             chk.traces += 1
-        if (r_["row"] == c["want"]) if c["k"] == "row" else (r_["dc"]["ok"] and r_["dc"]["data"] == c["plain"]):
+        ans = "gp" if c["k"] == "chain" and not c["chain"] else "dc"      # zero filters: get_plain_content answers
+        if (r_["row"] == c["want"]) if c["k"] == "row" else (r_[ans]["ok"] and r_[ans]["data"] == c["plain"]):
             passed[family(c)] = passed.get(family(c), 0) + 1
-        if c["k"] == "chain" and c["impl"]["ok"] and not (r_["dc"]["ok"] and r_["dc"]["data"] == c["impl"]["data"]):
+        if c["k"] == "chain" and (c["chain"] or c["ff"] == "empty") and c["impl"]["ok"] and not (r_["dc"]["ok"] and r_["dc"]["data"] == c["impl"]["data"]):
             chk.extra["model_drift"] = chk.extra.get("model_drift", 0) + 1
     for f in fams:
         if passed.get(f, 0) == 0:
@@ -156,7 +188,7 @@ def codec_phase(chk, tier, w):
     chk.extra["replayed_cases"] = len(cases)
     # (B) negative control for the replay judge: a corrupted expectation must be reported
     neg = next(((c, r_) for c, r_ in zip(cases, results)
-                if c["k"] == "chain" and len(c["plain"]) > 2 and judge_chain(c, r_)[0] is None), None)
+                if c["k"] == "chain" and c["chain"] and len(c["plain"]) > 2 and judge_chain(c, r_)[0] is None), None)
     if neg is None:
         vacuous("no generated case passes: the replay judge has no negative control")
     else:
@@ -165,6 +197,10 @@ def codec_phase(chk, tier, w):
         if judge_chain(bad, neg[1])[0] is None:
             raise vlib.ToolError("negative control: corrupted generated case was not reported by the replay judge")
         chk.extra["negative_controls_rejected"] = chk.extra.get("negative_controls_rejected", 0) + 1
+    i = next(i for i, c in enumerate(cases) if family(c) == "nofilter" and c["ff"] == "empty" and len(c["plain"]) > 3)
+    chk.sample({"family": "nofilter", "Filter": "[]", "paramsForm": cases[i]["form"], "content": cases[i]["plain"][:24],
+                "lopdf_decompressed_content": results[i]["dc"], "lopdf_get_plain_content": results[i]["gp"]["data"][:24],
+                "lopdf_content_after_decompress": results[i]["dz"]["content"][:24]})
     for fam in ("png", "lzwlong", "chain", "a85ws"):
         i = next(i for i, c in enumerate(cases) if family(c) == fam and len(c.get("plain", [])) > 3)
         c = cases[i]
@@ -187,6 +223,9 @@ def require_classes(cases):
     ll = [c for c in cases if c["k"] == "chain" and c["fam"] == "lzwlong"]
     if {c["chain"][0]["early"] for c in ll} != {0, 1} or not all(len(c["enc"]) * 8 // 9 > 260 for c in ll):
         raise vlib.ToolError("vacuous: long LZW cases do not cross the 9->10 bit boundary with both EarlyChange values")
+    zero = {(c["ff"], c["form"]) for c in cases if c["k"] == "chain" and not c["chain"] and c["plain"]}
+    if zero != {(f, d) for f in ("absent", "null", "empty") for d in ("none", "array", "dict")}:
+        raise vlib.ToolError("vacuous: zero-filter cases lack a spelling of Filter / DecodeParms")
     if not any(len(c["chain"]) >= 2 for c in cases if c["k"] == "chain"):
         raise vlib.ToolError("vacuous: no multi-filter chain generated")
 
@@ -234,13 +273,14 @@ def streamops_model(chk, tier):
     # back into the model breaks the contract, and only on its own class
     if r.tagged("DEVIATION"):
         raise vlib.ToolError("StreamOps model as the code is reports a deviation")
-    for cfg, cls in (("devAvg", "png.avg"), ("devArr", "decodeparms.array"), ("devStale", "compress.stale-decodeparms")):
+    for cfg, cls in (("devAvg", "png.avg"), ("devArr", "decodeparms.array"), ("devStale", "compress.stale-decodeparms"),
+                     ("devEmpty", "filter.empty-array")):
         d = tlc("MC_StreamOps.tla", "MC_StreamOps_%s.cfg" % cfg, workers=2, timeout=600)
         chk.add_tlc(d)
         seen = {tuple(x) for x in d.tagged("DEVIATION")}
         if seen != {(cls,)}:
             raise vlib.ToolError("deviation switch %s: model shows %s, expected exactly {%s}" % (cfg, sorted(seen), cls))
-    chk.extra["seeded_design_deviations_detected"] = 3
+    chk.extra["seeded_design_deviations_detected"] = 4
 
 
 def add_oracle(recs):
@@ -285,13 +325,14 @@ def trace_phase(chk, tier, w):
             if v["v"] == "ok-drift":
                 chk.extra["model_drift"] = chk.extra.get("model_drift", 0) + 1
         else:
-            strip = lambda s: {k: s[k] for k in ("filters", "form", "parms", "length", "content", "allows", "dc")}
+            strip = lambda s: {k: s[k] for k in ("filters", "fform", "form", "parms", "length", "content", "allows", "dc")}
             chk.violation("C09:" + v["v"], {"op": rec["op"], "stream": rec["sid"], "arg": rec["arg"], "res": rec["res"],
                                             "pre": [strip(s) for s in prev["post"]] if prev and rec["op"] != "reset" else [],
                                             "post": [strip(s) for s in rec["post"]]})
     # (B) the recorded set must contain the interesting transitions
     stats = {"compress_added_filter": 0, "decompress_removed_filter": 0, "roundtrip_compress_decompress": 0, "set_content": 0,
-             "set_plain_content": 0, "doc_ops": 0, "python_inflated_states": inflated}
+             "set_plain_content": 0, "doc_ops": 0, "python_inflated_states": inflated,
+             "decompress_of_empty_filter_array": 0, "null_filter_states": 0, "empty_filter_array_with_empty_decodeparms": 0}
     for i in range(1, len(recs)):
         rec, prev = recs[i], recs[i - 1]
         if rec["op"] == "reset":
@@ -300,7 +341,12 @@ def trace_phase(chk, tier, w):
             stats[rec["op"]] += 1
         if rec["op"].startswith("doc_"):
             stats["doc_ops"] += 1
-        for a, b in zip(prev["post"], rec["post"]):
+        for j, (a, b) in enumerate(zip(prev["post"], rec["post"])):
+            if rec["op"] in ("decompress", "doc_decompress") and rec["sid"] in (0, j + 1) and not a["filters"] \
+                    and a["fform"] == "array" and a["content"]:
+                stats["decompress_of_empty_filter_array"] += 1
+            stats["null_filter_states"] += b["fform"] == "null"
+            stats["empty_filter_array_with_empty_decodeparms"] += b["fform"] == "array" and not b["filters"] and b["form"] == "array"
             if rec["op"] in ("compress", "doc_compress") and not a["filters"] and b["filters"] == ["FlateDecode"]:
                 stats["compress_added_filter"] += 1
             if rec["op"] in ("decompress", "doc_decompress") and a["filters"] and not b["filters"]:
